@@ -176,6 +176,47 @@ theorem copies2_exact :
     simp only [Shape.args] at *
     exact canon_exact _ _ _ _ (by decide) (fun _ => guard_const_d x r nsPerSec (by decide) hr) hx
 
+/-! #### inline conversions (round 2): nanoseconds ↔ MP4 movie time scale without a helper -/
+
+/-- `recorder.writeDuration`: `mvhd.DurationV0 = uint32(d / time.Millisecond)` is the exact conversion of `d`
+nanoseconds into the movie time scale 1000 (the value `fmp4.Init.Marshal` writes; the harness reads the real
+one back), truncated toward zero, then narrowed to 32 bits. -/
+theorem recorder_writeDuration_mvhdDuration_eq (d : Int) (hd : InI64 d) :
+    recorder_writeDuration_mvhdDuration d = some (exact d 1000 nsPerSec % 2 ^ 32) := by
+  have h1 : exact d 1000 nsPerSec = Int.tdiv d 1000000 := by
+    unfold exact nsPerSec
+    have : (1000000000 : Int) = 1000000 * 1000 := by decide
+    rw [this, Int.mul_tdiv_mul_of_pos_left _ _ (by decide : (0 : Int) < 1000)]
+  have h2 : InI64 (Int.tdiv d 1000000) := by
+    have hb := Int.natAbs_tdiv_le_natAbs d 1000000
+    unfold InI64 at *
+    rcases Int.le_total 0 d with h | h
+    · have := Int.tdiv_nonneg h (by decide : (0 : Int) ≤ 1000000)
+      omega
+    · have := Int.tdiv_nonneg (by omega : 0 ≤ -d) (by decide : (0 : Int) ≤ 1000000)
+      rw [Int.neg_tdiv] at this
+      omega
+  simp [recorder_writeDuration_mvhdDuration, I64.div, I64.toU32, bind, Option.bind, h1, wrap64_of_in h2]
+
+/-- hence, when the exact result is representable in the 32-bit field, the field holds exactly it -/
+theorem recorder_writeDuration_exact (d : Int) (hd : InI64 d)
+    (hr : 0 ≤ exact d 1000 nsPerSec ∧ exact d 1000 nsPerSec < 2 ^ 32) :
+    recorder_writeDuration_mvhdDuration d = some (exact d 1000 nsPerSec) := by
+  rw [recorder_writeDuration_mvhdDuration_eq d hd, Int.emod_eq_of_lt hr.1 hr.2]
+
+/-- `playback.segmentFMP4ReadHeader`: `time.Duration(mvhd.DurationV0) * time.Second / time.Duration(mvhd.Timescale)`
+is the exact conversion for all 32-bit field values (the product is < 2^62: no wrap). -/
+theorem playback_readHeader_duration_eq (dur ts : Int) (hd : 0 ≤ dur ∧ dur < 2 ^ 32) (ht : 1 ≤ ts ∧ ts < 2 ^ 32) :
+    playback_readHeader_duration dur ts = some (exact dur nsPerSec ts) := by
+  have hp : InI64 (dur * 1000000000) := by unfold InI64; omega
+  have hq : InI64 (Int.tdiv (dur * 1000000000) ts) := by
+    have := Int.natAbs_tdiv_le_natAbs (dur * 1000000000) ts
+    unfold InI64 at *
+    omega
+  have hne : ts ≠ 0 := by omega
+  simp [playback_readHeader_duration, I64.div, I64.mul, I64.ofU32, hne, exact, nsPerSec,
+    wrap64_of_in hp, wrap64_of_in hq]
+
 /-- Every constant rate argument at every call site is in `1 … 2^31` (decided over the generated table). -/
 theorem sites_const_small : ∀ s ∈ Gen.sites, s.constSmall = true := by decide
 
